@@ -208,6 +208,8 @@ pub fn run(ctx: &Ctx) -> Outcome {
     let ps: Vec<usize> = ctx.tier.pick(vec![1, 2, 3, 4, 5], vec![1, 2, 3, 4, 5, 6, 7, 8, 9, 10, 12, 16]);
     let mut geos = geometries(&ps, ctx.tier.pick(3, 4));
     geos.extend(large_geometries(&ctx.tier.pick(vec![16384usize], vec![8192usize, 8193, 16384, 20000, 65536]), ctx.tier.pick(2, 3)));
+    // piece lengths beyond the client's own default of 256 KiB (and beyond 2 MiB in the thorough tier)
+    geos.extend(large_geometries(&ctx.tier.pick(vec![262145usize, 300000], vec![262143usize, 262144, 262145, 300000, 524288, 2097153]), 1));
     let res = core::par_map(
         &geos,
         |w| {
@@ -252,7 +254,7 @@ pub fn run(ctx: &Ctx) -> Outcome {
     o.set("name_clash_cases", json!(clashes));
     o.set("evaluations", json!(geos.len() as u64 + clashes));
     o.set("distinct_nontrivial", json!(multi_in_piece));
-    o.set("rule", json!(format!("every piece length p in {:?} x every list of 1..={} file lengths each in 0..=2p+1 with total <= 3p+2 (single-file form and files-list form for one file); plus realistic piece sizes (16384; thorough also 8192, 8193, 20000, 65536): total 2p+5, files = segments between every choice of <= 2 (thorough 3) cut points from the offsets {{1, 1000, 8191, 8192, 8193, 12000, p-1, p, p+1, p+1000, p+8192, p+8193, 2p, 2p+4}}; file names in three styles (f0, sub/f1, v1..2/f2.., ..f3; siblings sharing a stem that look like scratch names: a.part, a.txt, a, a.tmp; directories named like the start of the previous entry's directory: photos-raw/, photos/, photos/v10/, photos/v1/); each geometry extracted twice: into an empty directory and over pre-existing longer output files; plus single-file torrents whose file is named like the stored file of one of their own pieces (every piece k of four small geometries); all geometries distinct; non-trivial = at least one file starts strictly inside a piece", ps, ctx.tier.pick(3, 4))));
+    o.set("rule", json!(format!("every piece length p in {:?} x every list of 1..={} file lengths each in 0..=2p+1 with total <= 3p+2 (single-file form and files-list form for one file); plus realistic piece sizes (16384; thorough also 8192, 8193, 20000, 65536; with at most one cut point also 262145 and 300000, thorough 262143..2097153: beyond the 256 KiB the client uses for its own torrents): total 2p+5, files = segments between every choice of <= 2 (thorough 3) cut points from the offsets {{1, 1000, 8191, 8192, 8193, 12000, p-1, p, p+1, p+1000, p+8192, p+8193, 2p, 2p+4}}; file names in three styles (f0, sub/f1, v1..2/f2.., ..f3; siblings sharing a stem that look like scratch names: a.part, a.txt, a, a.tmp; directories named like the start of the previous entry's directory: photos-raw/, photos/, photos/v10/, photos/v1/); each geometry extracted twice: into an empty directory and over pre-existing longer output files; plus single-file torrents whose file is named like the stored file of one of their own pieces (every piece k of four small geometries); all geometries distinct; non-trivial = at least one file starts strictly inside a piece", ps, ctx.tier.pick(3, 4))));
     let picks = ctx.seeded_pick(geos.len(), 5);
     o.set("samples", Value::Array(picks.iter().map(|i| json!({"p": geos[*i].p, "files": geos[*i].files, "single": geos[*i].single, "style": geos[*i].style})).collect()));
     o.set("exhaustive", json!(true));
